@@ -76,9 +76,10 @@ type c15Case struct {
 	Hidden bool      `json:"hidden"`
 	Side   int       `json:"side"` // 0: server's view of the client address; 1: client's view of the server address
 	Steps  []c15Step `json:"steps"`
+	Fam    int       `json:"fam,omitempty"` // family of the fixture addresses: 0 IPv4-mapped 16-byte, 1 IPv4 4-byte, 2 IPv6 (the pool c15IPs mixes both anyway)
 }
 
-var c15IPs = []string{"10.0.0.9", "192.168.7.7", "172.16.1.1", "2001:db8::5", "10.6.6.6", "203.0.113.77"}
+var c15IPs = []string{"10.0.0.9", "192.168.7.7", "172.16.1.1", "2001:db8::5", "10.6.6.6", "203.0.113.77", "2001:db8::6", "2001:db8:1::5", "fd00::a00:2"}
 
 var c15Sides = []string{"server", "client"}
 
@@ -650,6 +651,8 @@ func c15Run(t *testing.T) func(c c15Case, v *vlib.Verdict) {
 			}
 		}
 		var s c15Scn
+		defer vSetFamily(vSetFamily(c.Fam))
+		v.Label("addresses:" + vFamilyNames[c.Fam%3])
 		res := vlib.Bubble(t, 60*time.Second, func() { c15Scenario(c, v, &s) })
 		if res.Hung {
 			v.Inconclusive = "bubble hung in real time (C15)"
@@ -806,6 +809,7 @@ func c15GenStep(t *rapid.T) c15Step {
 
 func c15Gen(t *rapid.T) c15Case {
 	c := c15Case{Hidden: rapid.Bool().Draw(t, "hidden"), Side: rapid.IntRange(0, 1).Draw(t, "side")}
+	c.Fam = rapid.SampledFrom([]int{0, 0, 1, 2, 2}).Draw(t, "fam")
 	n := rapid.IntRange(5, 40).Draw(t, "nsteps") // drawn explicitly: SliceOfN alone favours short scripts
 	c.Steps = rapid.SliceOfN(rapid.Custom(c15GenStep), n, n).Draw(t, "steps")
 	// a stale step costs ~450 packets: at most two per script, later ones become replays
